@@ -7,6 +7,7 @@ import importlib
 import json
 import multiprocessing as mp
 import os
+import re
 import signal
 import sys
 import time
@@ -98,7 +99,7 @@ def run_shard(args):
         old = signal.signal(signal.SIGALRM, _alarm)
         signal.alarm(timeout)
         try:
-            info = mod.check_case(case) or {}
+            info = checked(mod, case) or {}
         except Violation as v:
             signal.alarm(0)
             k = match_known(known, prop, v.signature)
@@ -181,6 +182,31 @@ def write_failure(prop: str, signature: str, case, detail) -> str:
     return os.path.join("failures", prop, name)
 
 
+def checked(mod, case):
+    """mod.check_case(case), with one reclassification shared by all properties: Python-scalar
+    arithmetic on constants raises (0.0**-2, 1e300**10) where array arithmetic gives inf / nan.
+    If the reference, evaluating every branch of every conditional, finds the model undefined at
+    that point, the model contains an expression that is defined nowhere (or only in a branch
+    that is not selected) - outside the domain of the properties: inconclusive, not a violation."""
+    try:
+        return mod.check_case(case)
+    except Violation as v:
+        if re.search(r"call-(ZeroDivisionError|OverflowError)", v.signature) and isinstance(v.detail, dict):
+            text, pt = v.detail.get("text"), v.detail.get("point")
+            undefined = False
+            try:
+                from vlib import odeparse, refsem
+
+                model = case.get("model") if isinstance(case, dict) and isinstance(case.get("model"), dict) and "assigns" in case["model"] else odeparse.parse_model(text)
+                pts = [pt] if isinstance(pt, dict) else [p for p in case.get("points", []) if isinstance(p, dict)]
+                undefined = any(refsem.strictly_undefined(model, p) for p in pts)
+            except Exception:
+                undefined = False
+            if undefined:
+                raise Inconclusive("undefined-constant-in-unselected-branch")
+        raise
+
+
 def replay_file(prop: str, path: str):
     """returns (signature or None, detail)"""
     mod = prop_module(prop)
@@ -188,7 +214,7 @@ def replay_file(prop: str, path: str):
         payload = json.load(f)
     case = payload["case"]
     try:
-        mod.check_case(case)
+        checked(mod, case)
     except Violation as v:
         return v.signature, v.detail
     except Inconclusive as ex:
